@@ -1282,6 +1282,7 @@ def _run_sources(case):
         case.note('rescaled_data_magnitude_' + _bucket(mag0 * kf))
         xk, yk = run(xp.copy(), yp.copy(), factor=kf)
         case.close(np.array([xk, yk]), np.array([xo, yo]), 'sources_invariant_under_power_of_two_rescale',
+                   atol=TOL_QUAD_REL if fname == 'centroid_quadratic' else 0.0,     # LAPACK lstsq: not bit-identical
                    mech=dict(base_mech, rel='scale'), k=kf, magnitude_base=mag0)
 
 
